@@ -1425,4 +1425,76 @@ theorem ops_refine_lemma {cmp : K → K → Int} {rank : K → Int} (hc : Lawful
     obtain ⟨r2, e2, h2⟩ := ih r1 _ h1
     exact ⟨r2, by simp [runOps, e1, e2], h2⟩
 
+theorem iter_refines {σ : Type} (f : K → V → σ → σ) (t : Tree K V) (s : σ) :
+    iter f t s = (abs t).foldl (fun s kv => f kv.1 kv.2 s) s := by
+  induction t generalizing s with
+  | empty => rfl
+  | leaf k v => rfl
+  | node h k v l r ihl ihr => simp [iter, abs, ihl, ihr]
+
+/-- the bindings an enumeration still has to deliver, in order -/
+def Enum.toList : Enum K V → List (K × V)
+  | .done => []
+  | .more k v r e => (k, v) :: (abs r ++ Enum.toList e)
+
+theorem Enum.toList_cons (e : Enum K V) (t : Tree K V) :
+    (Enum.cons e t).toList = abs t ++ e.toList := by
+  induction t generalizing e with
+  | empty => simp [Enum.cons, abs]
+  | leaf k v => simp [Enum.cons, Enum.toList, abs]
+  | node h k v l r ihl _ => simp [Enum.cons, ihl, Enum.toList, abs]
+
+/-- lexicographic comparison of two ascending enumerations: keys by `cmp`, then values by `f`;
+a proper prefix is smaller. -/
+def lexCmp (cmp : K → K → Int) (f : V → V → Int) : List (K × V) → List (K × V) → Int
+  | [], [] => 0
+  | [], _ :: _ => -1
+  | _ :: _, [] => 1
+  | (k1, v1) :: t1, (k2, v2) :: t2 =>
+    if cmp k1 k2 ≠ 0 then cmp k1 k2
+    else if f v1 v2 ≠ 0 then f v1 v2 else lexCmp cmp f t1 t2
+
+/-- pointwise equality of two enumerations -/
+def eqList (cmp : K → K → Int) (f : V → V → Bool) : List (K × V) → List (K × V) → Bool
+  | [], [] => true
+  | [], _ :: _ => false
+  | _ :: _, [] => false
+  | (k1, v1) :: t1, (k2, v2) :: t2 => cmp k1 k2 = 0 && f v1 v2 && eqList cmp f t1 t2
+
+theorem compareHelper_refines (cmp : K → K → Int) (f : V → V → Int) (e1 e2 : Enum K V) :
+    compareHelper cmp f e1 e2 = lexCmp cmp f e1.toList e2.toList := by
+  fun_induction compareHelper cmp f e1 e2 <;>
+    simp_all +zetaDelta [Enum.toList, lexCmp, Enum.toList_cons]
+
+theorem compare_refines (cmp : K → K → Int) (f : V → V → Int) (a b : Tree K V) :
+    compare cmp f a b = lexCmp cmp f (abs a) (abs b) := by
+  simp [compare, compareHelper_refines, Enum.toList_cons, Enum.toList]
+
+theorem equalHelper_refines (cmp : K → K → Int) (f : V → V → Bool) (e1 e2 : Enum K V) :
+    equalHelper cmp f e1 e2 = eqList cmp f e1.toList e2.toList := by
+  fun_induction equalHelper cmp f e1 e2 <;>
+    simp_all [Enum.toList, eqList, Enum.toList_cons]
+
+theorem equal_refines (cmp : K → K → Int) (f : V → V → Bool) (a b : Tree K V) :
+    equal cmp f a b = eqList cmp f (abs a) (abs b) := by
+  simp [equal, equalHelper_refines, Enum.toList_cons, Enum.toList]
+
+/-- with a lawful compare and a faithful value test, `equal` decides equality of the finite maps -/
+theorem eqList_iff {cmp : K → K → Int} {rank : K → Int} (hc : Lawful cmp rank) (f : V → V → Bool)
+    (hf : ∀ x y, f x y = true ↔ x = y) (xs ys : List (K × V)) : eqList cmp f xs ys = true ↔ xs = ys := by
+  induction xs generalizing ys with
+  | nil => cases ys <;> simp [eqList]
+  | cons x xs ih =>
+    cases ys with
+    | nil => simp [eqList]
+    | cons y ys =>
+      obtain ⟨k1, v1⟩ := x; obtain ⟨k2, v2⟩ := y
+      simp [eqList, ih, hf, hc.eq k1 k2, and_assoc]
+
+theorem minKey_refines (t : Tree K V) : minKey t = ((abs t).head?).map (·.1) := by
+  simp [minKey, min_refines]
+
+theorem maxKey_refines (t : Tree K V) : maxKey t = ((abs t).getLast?).map (·.1) := by
+  simp [maxKey, max_refines]
+
 end SamVerif.StdMap
